@@ -522,3 +522,45 @@ fn bucket_commit_after_emptying_first_leaf() {
     }
     std::mem::forget(sp);
 }
+
+// ---- C07: the cursor over a tree whose FIRST leaf has been emptied by the transaction (state constructed directly:
+//      an empty materialised leaf node shadows page 4, as after deleting both of its keys) delivers the second
+//      leaf's entries. (Going through the two real deletes first does not finish symbolic execution: see
+//      harness/cursor.rs; this is the same scan from the same state, built by hand.)
+// @ob props=C07,C08 tier=quick cap=900 mem=8 fns=Cursor::next,Cursor::on_empty_leaf,Cursor::seek_first,Cursor::current,InnerBucket::page_node,PageNode::val,PageNode::len,PageNode::leaf bound="branch page 3 over leaf pages 4 and 5 (2 symbolic keys each); an empty leaf node shadows page 4; three calls of next()" unwind=5
+#[kani::proof]
+#[kani::unwind(5)]
+fn cursor_skips_emptied_leaf_node() {
+    let a: [[u8; 2]; 2] = kani::any();
+    let c: [[u8; 2]; 2] = kani::any();
+    kani::assume(a[0] < a[1] && a[1] < c[0] && c[0] < c[1]);
+    tree_two_leaves(&a, &c);
+    let b = mk_bucket(3, true);
+    {
+        let mut ib = b.inner.borrow_mut();
+        let mut n = Node::new(0, Page::TYPE_LEAF, 256);
+        n.page_id = 4;
+        n.num_pages = 1;
+        ib.nodes.push(Rc::new(RefCell::new(n)));
+        ib.page_node_ids.insert(4, 0);
+        ib.dirty = true;
+    }
+    let mut cur = b.cursor();
+    let d0 = cur.next();
+    let d1 = cur.next();
+    let d2 = cur.next();
+    let k = |d: &Option<Data>| -> Option<[u8; 2]> {
+        match d {
+            Some(x) => Some([x.key()[0], x.key()[1]]),
+            None => None,
+        }
+    };
+    assert!(k(&d0) == Some(c[0]), "JV-C07-EMPTY-LEAF: the scan skips the emptied leaf and delivers the entries of the next one");
+    assert!(k(&d1) == Some(c[1]));
+    assert!(d2.is_none());
+    std::mem::forget(d0);
+    std::mem::forget(d1);
+    std::mem::forget(d2);
+    std::mem::forget(cur);
+    std::mem::forget(b);
+}
